@@ -227,6 +227,10 @@ def map(mapper, sequence, map_step=4):
     if map_step == 1:
         if getattr(mapper, '_jug_is_task_generator', False):
             mapper = mapper.f
+        if isinstance(sequence, (block_access, block_access_slice)):
+            # the result of a previous map() cannot be iterated over (like a
+            # Task), but it can be indexed
+            sequence = [sequence[i] for i in range(len(sequence))]
         return [Task(mapper, s) for s in sequence]
     blocks = []
     n = 0
